@@ -28,6 +28,8 @@ type slotOp struct {
 	Runners int   `json:"runners"` // number of upstream source runners
 	A       int   `json:"a"`       // id of the interrupted checkpoint
 	First   []int `json:"first"`   // runners whose barrier of a arrives before the failure (distinct, strict subset)
+	Refuse  bool  `json:"refuse,omitempty"`     // the job refuses the operator's ack of a (as the store does for an aborted / foreign id)
+	NoRedep bool  `json:"no_redeploy,omitempty"` // no second deploy (what does the operator do with its slot then)
 	Late    []int `json:"late"`    // runners whose (stale) barrier of a arrives only AFTER the second deploy
 	B       int   `json:"b"`       // id of the checkpoint of the new assembly
 	Second  []int `json:"second"`  // order in which the barriers of b arrive (a permutation of the runners)
@@ -35,16 +37,22 @@ type slotOp struct {
 
 type slotJob struct {
 	proto.UnimplementedJob
-	mu   sync.Mutex
-	acks []uint64
+	mu      sync.Mutex
+	acks    []uint64
+	refuse  map[uint64]bool
+	refused []uint64
 }
 
 func (j *slotJob) RegisterOperator(context.Context, *jobpb.NodeIdentity) error   { return nil }
 func (j *slotJob) DeregisterOperator(context.Context, *jobpb.NodeIdentity) error { return nil }
 func (j *slotJob) OperatorCheckpointComplete(ctx context.Context, req *snapshotpb.OperatorCheckpoint) error {
 	j.mu.Lock()
+	defer j.mu.Unlock()
+	if j.refuse[req.CheckpointId] {
+		j.refused = append(j.refused, req.CheckpointId)
+		return fmt.Errorf("operator %s tried to add to job checkpoint %d but there is no pending checkpoint", req.OperatorId, req.CheckpointId)
+	}
 	j.acks = append(j.acks, req.CheckpointId)
-	j.mu.Unlock()
 	return nil
 }
 
@@ -84,6 +92,15 @@ func genSlot(tier string, r *hx.Rand) []*hx.Case {
 			}
 		}
 		op := slotOp{Runners: k, A: a, First: first, Late: late, B: a + r.Range(1, 2), Second: append([]int{}, perm...)}
+		if r.Chance(1, 3) { // all barriers of a arrive, the job refuses the ack (a was aborted): the slot stays complete but unreported
+			all := append([]int{}, perm...)
+			hx.Shuffle(r, all)
+			op.First, op.Late, op.Refuse = all, nil, true
+			op.NoRedep = r.Chance(1, 4)
+		} else if r.Chance(1, 8) {
+			op.NoRedep = true
+			op.Late = nil
+		}
 		cs = append(cs, &hx.Case{Name: fmt.Sprintf("slot-%d", i), Params: map[string]any{"mode": "slot"}, Ops: []json.RawMessage{hx.Op(op)}})
 	}
 	return cs
@@ -91,7 +108,7 @@ func genSlot(tier string, r *hx.Rand) []*hx.Case {
 
 func executeSlot(c *hx.Case) (*hx.Result, error) {
 	if len(c.Ops) == 0 {
-		return &hx.Result{Term: "(SlotCase true (@nil N) 1 (@nil N) (@nil N) (@nil N) (@nil N) 2 (@nil N) (@nil N))", Tags: []string{"empty"}}, nil
+		return &hx.Result{Term: "(SlotCase true false true (@nil N) 1 (@nil N) (@nil N) (@nil N) (@nil N) 2 (@nil N) (@nil N))", Tags: []string{"empty"}}, nil
 	}
 	var so slotOp
 	if err := json.Unmarshal(c.Ops[0], &so); err != nil {
@@ -102,7 +119,10 @@ func executeSlot(c *hx.Case) (*hx.Result, error) {
 		return nil, err
 	}
 	defer os.RemoveAll(dir)
-	job := &slotJob{}
+	job := &slotJob{refuse: map[uint64]bool{}}
+	if so.Refuse {
+		job.refuse[uint64(so.A)] = true
+	}
 	opr := operator.NewOperator(operator.NewOperatorParams{ID: "op0", Job: job, UserHandler: nopHandler{},
 		EventBatching: batching.EventBatcherParams{MaxSize: 4, MaxDelay: time.Hour}})
 	ctx, cancel := context.WithCancel(context.Background())
@@ -157,29 +177,40 @@ func executeSlot(c *hx.Case) (*hx.Result, error) {
 	// result of one barrier: 0 registered, 1 rejected, 2 completed the checkpoint (ack sent to the job), 3 parked by alignSender, 4 no answer
 	barrier := func(sender int, id int) uint64 {
 		job.mu.Lock()
-		before := len(job.acks)
+		before, refBefore := len(job.acks), len(job.refused)
 		job.mu.Unlock()
 		ret := make(chan error, 1)
 		go func() {
 			ret <- opr.HandleEvent(ctx, srIDs[sender], &workerpb.Event{Event: &workerpb.Event_CheckpointBarrier{
 				CheckpointBarrier: &workerpb.CheckpointBarrier{CheckpointId: uint64(id)}}})
 		}()
-		select {
-		case err := <-ret:
-			if err != nil {
-				return 1
-			}
+		answer := func(err error) uint64 {
 			job.mu.Lock()
 			defer job.mu.Unlock()
+			if err != nil {
+				if len(job.refused) > refBefore {
+					return 5 // all barriers in, checkpoint taken, the job refused the ack
+				}
+				return 1
+			}
 			if len(job.acks) > before && job.acks[len(job.acks)-1] == uint64(id) {
 				return 2
 			}
 			return 0
-		case <-parked:
-			return 3
-		case <-time.After(waitFor):
-			timedOut()
-			return 4
+		}
+		for {
+			select {
+			case err := <-ret:
+				return answer(err)
+			case <-parked:
+				// the request reached alignSender's wait: it is parked unless the slot is complete (channel already closed)
+				if present, _, waiting := opr.VerifCheckpointSlot(); present && len(waiting) > 0 {
+					return 3
+				}
+			case <-time.After(waitFor):
+				timedOut()
+				return 4
+			}
 		}
 	}
 	// the operator handles events only once its loop runs and it is Ready; HandleEvent answers Unavailable before
@@ -187,8 +218,10 @@ func executeSlot(c *hx.Case) (*hx.Result, error) {
 	for _, s := range so.First {
 		r1 = append(r1, barrier(s%so.Runners, so.A))
 	}
-	if err := deploy(); err != nil {
-		return nil, fmt.Errorf("second deploy: %w", err)
+	if !so.NoRedep {
+		if err := deploy(); err != nil {
+			return nil, fmt.Errorf("second deploy: %w", err)
+		}
 	}
 	for _, s := range so.Late {
 		rl = append(rl, barrier(s%so.Runners, so.A))
@@ -214,7 +247,13 @@ func executeSlot(c *hx.Case) (*hx.Result, error) {
 	if !preOK {
 		tags = append(tags, "retention-update-before-deploy-failed")
 	}
-	term := fmt.Sprintf("(SlotCase %s %s %d %s %s %s %s %d %s %s)", hx.CoqBool(preOK), nlist(runners), so.A, nlist(conv(so.First)), nlist(r1), nlist(conv(so.Late)), nlist(rl), so.B, nlist(conv(so.Second)), nlist(r2))
+	if so.Refuse {
+		tags = append(tags, "job-refused-ack-of-fully-aligned-checkpoint")
+	}
+	if so.NoRedep {
+		tags = append(tags, "no-redeploy")
+	}
+	term := fmt.Sprintf("(SlotCase %s %s %s %s %d %s %s %s %s %d %s %s)", hx.CoqBool(preOK), hx.CoqBool(so.Refuse), hx.CoqBool(!so.NoRedep), nlist(runners), so.A, nlist(conv(so.First)), nlist(r1), nlist(conv(so.Late)), nlist(rl), so.B, nlist(conv(so.Second)), nlist(r2))
 	return &hx.Result{Term: term, Nontrivial: len(so.First) > 0, Tags: tags,
 		Observed: map[string]any{"retention_before_deploy_ok": preOK, "first_results": r1, "late_results": rl, "second_results": r2}}, nil
 }
